@@ -3,6 +3,7 @@ package sim
 import (
 	"fmt"
 	"runtime"
+	"sort"
 	"sync"
 	"sync/atomic"
 	"time"
@@ -63,13 +64,21 @@ type Event struct {
 
 // Sched is the scheduler of one simulated run.
 type Sched struct {
-	T        *Tape
-	threads  [16]*SimThread
-	n        int
-	toS      chan smsg
-	cur      atomic.Int32
-	spawnID  atomic.Int32
-	spawned  atomic.Int32
+	T       *Tape
+	threads [16]*SimThread
+	n       int
+	toS     chan smsg
+	cur     atomic.Int32
+	spawnID atomic.Int32
+	spawned atomic.Int32
+	// degraded mode: a resumed thread did not reach its next hook point within the stall period — it is blocked on
+	// synchronisation the scheduler does not model (code under test that waits on its own channel or mutex). Instead
+	// of raising an alarm the scheduler lets another thread run; from then on hooks identify their thread by
+	// goroutine id. Runs that entered this mode are flagged: their interleaving is no longer fully tape-decided.
+	degraded atomic.Bool
+	goids    [16]atomic.Int64
+	stalled  map[int]bool
+	Stall    time.Duration
 	killed   atomic.Bool
 	ids      map[uintptr]int
 	locks    map[int]int // lock id → owner thread id+1 (0 = free)
@@ -100,10 +109,27 @@ type Sched struct {
 
 // NewSched creates a scheduler drawing from t.
 func NewSched(t *Tape) *Sched {
-	s := &Sched{T: t, toS: make(chan smsg, 32), ids: map[uintptr]int{}, locks: map[int]int{}, MaxSteps: 200000}
+	s := &Sched{T: t, toS: make(chan smsg, 32), ids: map[uintptr]int{}, locks: map[int]int{}, MaxSteps: 200000, stalled: map[int]bool{}, Stall: 400 * time.Millisecond}
 	s.spawnID.Store(-1)
 	return s
 }
+
+// curGoid parses the current goroutine's id from its stack header (slow path, degraded mode and registration only).
+func curGoid() int64 {
+	var buf [40]byte
+	n := runtime.Stack(buf[:], false)
+	var id int64
+	for _, c := range buf[len("goroutine "):n] {
+		if c < '0' || c > '9' {
+			break
+		}
+		id = id*10 + int64(c-'0')
+	}
+	return id
+}
+
+// Degraded reports whether the run met blocking the scheduler does not model.
+func (s *Sched) Degraded() bool { return s.degraded.Load() }
 
 // Go registers a simulated thread (before Run).
 func (s *Sched) Go(name string, fn func()) *SimThread {
@@ -173,7 +199,26 @@ func (s *Sched) hook(p int, obj unsafe.Pointer) {
 	raceDisable()
 	var th *SimThread
 	if p == ugo.VerifEvalGoStart {
-		th = s.threads[s.spawnID.Load()]
+		slot := s.spawnID.Load()
+		if slot < 0 {
+			// a goroutine the scheduler was not told about (the spawning thread was not at the spawn point): let it run free
+			raceEnable()
+			return
+		}
+		th = s.threads[slot]
+		s.goids[slot].Store(curGoid())
+	} else if s.degraded.Load() {
+		g := curGoid()
+		for i := range s.goids {
+			if s.goids[i].Load() == g {
+				th = s.threads[i]
+				break
+			}
+		}
+		if th == nil {
+			raceEnable()
+			return
+		}
 	} else {
 		th = s.threads[s.cur.Load()]
 	}
@@ -230,6 +275,7 @@ func (s *Sched) startThread(th *SimThread) {
 	s.wg.Add(1)
 	go func() {
 		defer s.wg.Done()
+		s.goids[th.ID].Store(curGoid())
 		raceDisable()
 		q := <-th.resume
 		th.quantum = q
@@ -253,7 +299,7 @@ func (s *Sched) lockOwner(id int) int { return s.locks[id] - 1 }
 
 // runnable reports whether S may resume th now.
 func (s *Sched) runnable(th *SimThread) bool {
-	if th.done {
+	if th.done || s.stalled[th.ID] {
 		return false
 	}
 	if th.wantLock != 0 && s.locks[th.wantLock] != 0 {
@@ -332,11 +378,18 @@ func (s *Sched) process(m smsg) {
 	}
 }
 
-func (s *Sched) recv() (smsg, bool) {
+func (s *Sched) recv(d time.Duration) (smsg, bool) {
 	select {
 	case m := <-s.toS:
 		return m, true
-	case <-time.After(20 * time.Second):
+	default:
+	}
+	tm := time.NewTimer(d)
+	defer tm.Stop()
+	select {
+	case m := <-s.toS:
+		return m, true
+	case <-tm.C:
 		return smsg{}, false
 	}
 }
@@ -380,6 +433,18 @@ func (s *Sched) Run() error {
 			s.kill()
 			break
 		}
+		if len(cand) == 0 && len(s.stalled) > 0 {
+			// everything that could run is blocked for real: wait for one of them to come back
+			m, ok := s.recv(20 * time.Second)
+			if !ok {
+				s.kill()
+				s.waitThreads(5 * time.Second)
+				return fmt.Errorf("watchdog: simulated threads are blocked for real and nothing else is runnable; state: %s", s.describe())
+			}
+			delete(s.stalled, int(m.th))
+			s.process(m)
+			continue
+		}
 		if len(cand) == 0 {
 			s.Deadlock = s.describe()
 			s.kill()
@@ -421,41 +486,61 @@ func (s *Sched) Run() error {
 		}
 		s.cur.Store(int32(pick.ID))
 		pick.resume <- q
-		want := 1
+		outstanding := map[int]bool{pick.ID: true}
 		if spawning {
-			want = 2 // parent's next point and the child's first point, in either order
+			outstanding[s.n-1] = true // the child's first point
 		}
-		var got [2]smsg
-		for k := 0; k < want; k++ {
-			m, ok := s.recv()
-			if !ok {
-				s.kill()
-				return fmt.Errorf("watchdog: no event for 20s after resuming thread %d (%s) at point %d; state: %s", pick.ID, pick.Name, pick.point, s.describe())
+		var got []smsg
+		for len(outstanding) > 0 {
+			m, ok := s.recv(s.Stall)
+			if ok {
+				got = append(got, m)
+				delete(outstanding, int(m.th))
+				delete(s.stalled, int(m.th))
+				continue
 			}
-			got[k] = m
+			// the resumed thread(s) did not reach a hook point: blocked on synchronisation we do not model.
+			// Let the others run; the blocked thread reports when it gets there.
+			s.degraded.Store(true)
+			for id := range outstanding {
+				s.stalled[id] = true
+				delete(outstanding, id)
+			}
 		}
 		if spawning {
-			// the two arrive in either order: process the parent's first
-			if int(got[0].th) != pick.ID {
-				got[0], got[1] = got[1], got[0]
-			}
 			s.spawnID.Store(-1)
 		}
-		for k := 0; k < want; k++ {
-			s.process(got[k])
+		// process in a fixed order: the picked thread first, then by thread id
+		sort.SliceStable(got, func(i, j int) bool {
+			pi, pj := int(got[i].th) != pick.ID, int(got[j].th) != pick.ID
+			if pi != pj {
+				return !pi
+			}
+			return got[i].th < got[j].th
+		})
+		for _, m := range got {
+			s.process(m)
 		}
 	}
 	raceEnable()
-	done := make(chan struct{})
-	go func() { s.wg.Wait(); close(done) }()
 	var err error
-	select {
-	case <-done:
-	case <-time.After(20 * time.Second):
+	if !s.waitThreads(20 * time.Second) {
 		err = fmt.Errorf("watchdog: simulated threads did not finish within 20s after the run ended; state: %s", s.describe())
 	}
 	raceDisable()
 	return err
+}
+
+// waitThreads waits for every simulated goroutine to end.
+func (s *Sched) waitThreads(d time.Duration) bool {
+	done := make(chan struct{})
+	go func() { s.wg.Wait(); close(done) }()
+	select {
+	case <-done:
+		return true
+	case <-time.After(d):
+		return false
+	}
 }
 
 // kill releases every parked thread into free-running mode: hooks become
